@@ -107,6 +107,18 @@ PROPS["C02"] = {
                     "failure detection and gossip timing are memberlist's: the stream waits for convergence (up to 60 s) and abandons the episode otherwise",
                     "failures beyond R-1 in total, and conditional Puts (NX/XX evaluate the new owner's local copy only) after a failover, are outside the property"],
 }
+PROPS["C03"] = {
+    "lean": ["OlricModel.Props.C03", "OlricModel.Props.C13"],
+    "streams": [("rebalance", (5, 3), (60, 5)), ("repair", (6, 60), (60, 150))],
+    "model": True,
+    "level_text": "Theorems about the hand-over of a key in separate steps that operations and crashes may interleave with: after the receiver's merge it holds the newer of its own and the sender's version (incoming on a tie) while the sender still holds its version; after the sender's drop exactly one of the two holds the key, the newest version, nobody else is touched (C03_move); whichever of the two members is lost at whichever point, the other one holds a version at least as new, except the loss of a sole holder before anything was merged (C03_move_crash_points; backups: C02); a move carries nothing from a member that holds nothing - a deleted key cannot come back through it (C03_move_nothing_from_nothing); while previous owners are listed a Get answers with a version at least as new as every live copy on the owner, on every previous owner and on every backup owner (C03_read_during_handover, for every route) and a Delete removes the key from all of them (C03_delete_during_handover); a Get with read-repair never writes to a member that is neither the owner nor a backup owner, so no copy is planted out of a later Delete's reach (C03_repair_skips_previous_owners); arrival order and repetition of merges do not matter (C06_merge_lww); previous owners stay listed until they report zero keys (C13_primary, C02_survivor_listed_primary). Hand-over shape extracted on every run (facts_tie). Tied to the code by the rebalance stream: joins and one graceful leave with data in small tables, operations from every member after the routing push, before any move, between single-table moves and after, a DMap named with the fragment prefix, white-box key placement after stabilisation; real DMAP.MOVEFRAGMENT deliveries in the repair stream.",
+    "design_ref": "DESIGN.md §6 C03",
+    "modelled": DMAP_MODELLED + "; fragment.Move / mergeFragments / kvstore transfer as moveMerge / moveDrop (Props/C03.lean) over the store theorems of C11 (exportDrop_spec, merge_spec, importTable_spec)",
+    "assumptions": ["'stabilised' = routing updates, balancer passes and the empty-fragment janitor repeated until three rounds in a row change nothing (a balancer pass stops at the first empty fragment of a partition, so the janitor is part of convergence)",
+                    "a leave is asserted only while every key has its backups: backup copies of a departed member are not re-created by the system, so at most one member leaves per episode",
+                    "conditional Puts (NX / XX look at the new owner's local copy only) during a hand-over are outside the property",
+                    "crashes of sender or receiver during a move are proved on the model (C03_move_crash_points) and exercised as graceful stops; process-level crashes cannot be produced inside one process"],
+}
 PROPS["C04"] = {
     "lean": ["OlricModel.Props.C04"],
     "streams": [("cluster", (12, 150), (150, 400))],
